@@ -51,8 +51,8 @@ OnDomain == {f \in [Ports -> OneDepth] : Total(f) <= MaxTotal}
 MaxOf(S) == CHOOSE x \in S : \A y \in S : y <= x
 InnerIsCart == TreeKind \in {"dotcart", "cartcart"}
 InnerDepth(f) == MaxOf(DepthsOf(f["A"]) \cup DepthsOf(f["B"])) + (IF InnerIsCart THEN 1 ELSE 0)
-InnerBroadcast == {f \in OnDomain : /\ InnerIsCart => DepthsOf(f["A"]) = DepthsOf(f["B"])
-                                     /\ \A d \in DepthsOf(f["C"]) : d > InnerDepth(f)}
+InnerBroadcast == {f \in OnDomain : (InnerIsCart => (DepthsOf(f["A"]) = DepthsOf(f["B"])))
+                                     /\ (\A d \in DepthsOf(f["C"]) : d > InnerDepth(f))}
 MCStreams ==
   CASE Mix = "same" -> {f \in OnDomain : Cardinality(UNION {DepthsOf(f[p]) : p \in Ports}) = 1}
     [] Mix = "mixed" -> {f \in OnDomain : Cardinality(UNION {DepthsOf(f[p]) : p \in Ports}) > 1}
